@@ -355,6 +355,11 @@ int state_status(struct snapraid_state* state)
 
 	if (!count) {
 		log_fatal("The array is empty.\n");
+
+		/* without any synced block, files could be still waiting for the first sync */
+		if (unsynced_blocks)
+			log_fatal("WARNING! The array is NOT fully synced.\n");
+
 		free(timemap);
 		return 0;
 	}
